@@ -3,3 +3,4 @@ import Geo.Diagram
 import Geo.Tensor
 import Geo.LeviCivita
 import Geo.Proto
+import Geo.JoinMeet
